@@ -343,6 +343,11 @@ impl<V: Debug + Clone> TrieNode<V> {
                                 remove_result = RemoveResult::Ok;
                             }
                         }
+                        // prune a regex subtree emptied by the removal, as the
+                        // children branch below does for literal segments
+                        if remove_result == RemoveResult::Ok {
+                            self.regexps.retain(|(_, node)| !node.is_empty());
+                        }
                         return remove_result;
                     } else {
                         let len = self.regexps.len();
